@@ -11,3 +11,8 @@ open Neutrino.Disp
 #print axioms C12_subs_recorded
 #print axioms C12_rank_scores
 #print axioms C12_score_moves
+open Neutrino.Wrk
+#print axioms C12_worker_source_facts
+#print axioms C12_worker_reports
+#print axioms C12_worker_progress
+#print axioms C12_worker_reports_counterexample_if_precheck_continues
